@@ -108,6 +108,18 @@ CHECKS = {
         note='Trusted: F1/F2 (BufWriter/flush/fsync contract). Outside: what fsync does on the device, durability of lsm-tree table files, directory-entry durability beyond the order of fsync_directory calls.',
         technique='MIR symbolic execution + z3 bounded cursor model; native power-loss replay from strace',
     ),
+    'C03': dict(
+        category='model_checking',
+        text='Writer and reader are both executed from MIR at byte level: Writer::write_raw/write_batch/write_clear produce the journal image (keys/values of concrete length, '
+             'symbolic content, checksum = uninterpreted collision-free function of the item bytes); JournalBatchReader::next -> JournalReader::next -> Entry::decode_from run over '
+             'that image for EVERY end offset and both tails (EOF / pre-allocated zeros). z3 decides that exactly the complete units are emitted with identical contents, no error, '
+             'truncation to the last complete unit, and that a unit appended after the repair is read back. Plus framing of each unit and one-batch-per-transaction. '
+             'Counterexamples are replayed natively by cutting a real journal at the byte offset.',
+        design_ref='DESIGN.md §5 C03',
+        note='Trusted: F5 (xxh3 as collision-free uninterpreted function), Read/Seek/set_len contract of BufReader<File>. Outside: > 3 units x 2 items, keys > 2 / values > 2 bytes, '
+             'journal compression on, non-zero garbage after a torn record.',
+        technique='MIR symbolic execution of writer and reader over a byte-level symbolic file + z3 (UF checksum); native cut-image replay',
+    ),
 }
 
 NOT_YET = {}
